@@ -213,7 +213,7 @@ def place_of(s):
     if i != len(s.strip()): raise Unsupported('trailing place text: ' + s)
     return p
 
-_CAST_RE = re.compile(r'^((?:copy|move|const) .*) as (.*?) \((IntToInt|IntToFloat|FloatToInt|FloatToFloat|PtrToPtr|FnPtrToPtr|Transmute|PointerExposeProvenance|PointerWithExposedProvenance|PointerCoercion|Subtype)(?:\(.*\))?\)$')
+_CAST_RE = re.compile(r'^((?:copy |move |const )?[^ ].*?) as (.*?) \((IntToInt|IntToFloat|FloatToInt|FloatToFloat|PtrToPtr|FnPtrToPtr|Transmute|PointerExposeProvenance|PointerWithExposedProvenance|PointerCoercion|Subtype)(?:\(.*\))?\)$')
 _BIN_RE = re.compile(r'^(Add|Sub|Mul|Div|Rem|BitAnd|BitOr|BitXor|Shl|Shr|Eq|Ne|Lt|Le|Gt|Ge|AddWithOverflow|SubWithOverflow|MulWithOverflow|AddUnchecked|SubUnchecked|MulUnchecked|ShlUnchecked|ShrUnchecked|Offset|Cmp)\((.*)\)$')
 
 def parse_operand(s):
@@ -741,7 +741,10 @@ class Machine:
                 if k == 'call':
                     dst, callee, aops, retbb = term[1], term[2], term[3], term[4]
                     args2 = [self.operand(fr, a) for a in aops]
-                    r = self.invoke(fr, callee, args2)
+                    if callee.startswith(('copy _', 'move _', 'copy (', 'move (')):
+                        r = self.call_closure(fr, self.operand(fr, parse_operand(callee)), args2)      # call through a fn pointer / closure value
+                    else:
+                        r = self.invoke(fr, callee, args2)
                     if retbb is None:
                         raise Unsupported('diverging call returned: ' + callee)
                     self.write(fr, dst, r)
@@ -1019,6 +1022,10 @@ class Machine:
         clo_v = self.deref(clo)
         if isinstance(clo_v, FnItem):
             nm = clo_v.name
+            for pat, fn in self.stubs:
+                if pat.search(nm):
+                    r = fn(self, fr, nm, list(cargs))
+                    if r is not NotImplemented: return r
             m = re.match(r'^(.*)::([A-Za-z_0-9]+)$', strip_generics(nm))
             key = self.prog.resolve(fr.item.crate, nm)
             if key and self.prog.items[key].kind == 'fn' and self.prog.items[key].blocks:
